@@ -348,8 +348,18 @@ def check_neighbors(case):
                 else:
                     nb = a.four_neighbors((y, x))
                     ni = a.four_neighbor_indices((y, x))
-                if sorted(tuple(p) for p in ni) != want:
-                    raise Failure("four_neighbor_indices-wrong", observed=sorted(ni), expected=want)
+                if sorted((tuple(p) for p in ni), key=repr) != sorted(want, key=repr):
+                    raise Failure("four_neighbor_indices-wrong", observed=[list(p) for p in ni], expected=want)
+                # the returned list belongs to the caller: changing it must not leak into later calls
+                keep = list(ni)
+                ni.append(("junk", "junk"))
+                if ni:
+                    ni.pop(0)
+                again = a.four_neighbor_indices(y, x) if style == "two" else a.four_neighbor_indices((y, x))
+                if list(again) != keep:
+                    raise Failure("four_neighbor_indices-result-shared-between-calls", observed=list(again),
+                                  expected=keep)
+                ni = keep
                 got = sorted(v.id for v in nb)
                 if got != sorted(ids[yy * W + xx] for yy, xx in want):
                     raise Failure("four_neighbors-wrong", observed=got,
